@@ -153,7 +153,7 @@ pub fn check_info(text: &str, source: &[u8], case: &CCase, parsed: &codec::Parse
     Ok(checked >= 5)
 }
 
-fn gen_metadata(rng: &mut Rng, case: &mut CCase) {
+pub fn gen_metadata(rng: &mut Rng, case: &mut CCase) {
     if rng.chance(1, 2) {
         return;
     }
